@@ -53,7 +53,7 @@ COMMON_ASSUME = [
 PROPS = {
     "C01": dict(
         bin="engine_sim", packages=["engine_sim"], args=["--prop", "C01"],
-        quick_s=60, thorough_s=600, level="exploration",
+        quick_s=90, thorough_s=600, level="exploration",
         also=["C01"],
         rule=("seeded programs (3-12 nodes quick, up to 40 thorough; input/external/normal/firewall/"
               "projection nodes; If/Join/Unord reads) x histories of sessions (set/update/refresh, no-op "
@@ -66,7 +66,7 @@ PROPS = {
     ),
     "C03": dict(
         bin="engine_sim", packages=["engine_sim"], args=["--prop", "C03"],
-        quick_s=60, thorough_s=600, level="exploration",
+        quick_s=90, thorough_s=600, level="exploration",
         also=["C03"],
         rule=("same generator as C01; every completed executor invocation is judged: first run, or a "
               "dependency read in the previous run has a different from-scratch value now (or returned a "
@@ -81,7 +81,7 @@ PROPS = {
 
 PROPS["C07"] = dict(
     bin="engine_sim", packages=["engine_sim"], args=["--prop", "C07"],
-    quick_s=60, thorough_s=600, level="exploration", also=["C01", "C03"],
+    quick_s=90, thorough_s=600, level="exploration", also=["C01", "C03"],
     rule=("C01 histories with clean Restart (drop engine, reopen on the same SimKv disk, re-register executors) and "
           "pipeline Drain operations inserted at arbitrary positions; cache capacity 1-64, 1-3 serializer threads, "
           "1-6 logical batches per physical commit. After every restart all values must be from-scratch and the "
@@ -96,7 +96,7 @@ PROPS["C08"] = dict(
     bin="engine_sim", packages=["engine_sim"], args=["--prop", "C08"],
     parts=[dict(bin="engine_sim", args=["--prop", "C08"], workers=12),
            dict(bin="engine_sim", args=["--prop", "C08r"], workers=4)],
-    quick_s=60, thorough_s=600, level="fault_enumeration", also=["C01", "C07"],
+    quick_s=90, thorough_s=600, level="fault_enumeration", also=["C01", "C07"],
     rule=("per sampled run (program x history x grouping x drain points on DbBacked<SimKv>) EVERY prefix of the "
           "physical commit log is opened as a crash state by a fresh engine: recovered inputs must be exactly the "
           "inputs of one committed session (monotone in the prefix length), every node must then answer "
@@ -112,7 +112,7 @@ PROPS["C08"] = dict(
 
 PROPS["C02"] = dict(
     bin="engine_sim", packages=["engine_sim"], args=["--prop", "C02"],
-    quick_s=60, thorough_s=600, level="exploration", also=["C01", "C03"],
+    quick_s=90, thorough_s=600, level="exploration", also=["C01", "C03"],
     rule=("programs of C01 plus dedicated fan-in shapes (33-40 concurrent callers of one callee; 1025+ in the "
           "thorough tier); histories alternate input sessions with phases of 2-6 (fan-in: all) user requests "
           "running as separate tokio tasks with own or shared tracked engines; preempt and await hooks on "
@@ -128,7 +128,7 @@ PROPS["C02"] = dict(
 )
 PROPS["C04"] = dict(
     bin="engine_sim", packages=["engine_sim"], args=["--prop", "C04"],
-    quick_s=60, thorough_s=600, level="exploration", also=["C01"],
+    quick_s=90, thorough_s=600, level="exploration", also=["C01"],
     rule=("programs of input and normal nodes; one writer task runs 1-5 sessions (each writes inputs with "
           "values unique to that session, commit or plain drop) while 1-4 reader tasks loop tracked() / 1-3 "
           "queries / drop; hooks inside tracked() and input_session() let the scheduler separate 'lock held' "
@@ -141,7 +141,7 @@ PROPS["C04"] = dict(
 )
 PROPS["C05"] = dict(
     bin="engine_sim", packages=["engine_sim"], args=["--prop", "C05"],
-    quick_s=60, thorough_s=600, level="fault_enumeration", also=["C01"],
+    quick_s=90, thorough_s=600, level="fault_enumeration", also=["C01"],
     rule=("per sampled scenario (program x history x poll order) a calibration run counts the N suspension "
           "points of the fault target, then EVERY n in 1..N is run (cap 40 quick / 400 thorough, then an even "
           "sample): the user query, one of several concurrent requests, set_input, commit or the "
@@ -157,7 +157,7 @@ PROPS["C05"] = dict(
 
 PROPS["C06"] = dict(
     bin="engine_sim", packages=["engine_sim"], args=["--prop", "C06"],
-    quick_s=60, thorough_s=600, level="exploration", also=["C01"],
+    quick_s=90, thorough_s=600, level="exploration", also=["C01"],
     rule=("digraphs of 2-7 normal nodes over 1-2 input flags with self-loops, nested / adjacent SCCs and edges "
           "conditional on the flags; sequential requests on arbitrary roots, sessions flipping flags, and (1/3 of "
           "the runs) concurrent request phases under preempt hooks. Oracle: executable model 'depth-first "
@@ -190,7 +190,7 @@ PROPS["C02"]["rule"] += (" | structure level (storage_sim, 4 of 16 workers): Com
                          "with a scheduling point in the 32 -> large upgrade; per-element single-writer register rule")
 PROPS["C09"] = dict(
     bin="storage_sim", packages=["storage_sim"], args=["--prop", "C09"],
-    quick_s=60, thorough_s=600, level="exploration", also=[],
+    quick_s=90, thorough_s=600, level="exploration", also=[],
     rule=("single, two-type and key-to-set maps of DbBacked<SimKv> driven directly: one thread (2/3 of the runs) or a "
           "single writer per key with racing readers (1/3); 20-120 (thorough 300) operations per thread over 2-8 (16) "
           "keys: open up to two batches, insert/remove into them (never into an older batch than an earlier write of "
@@ -207,7 +207,7 @@ PROPS["C09"] = dict(
 )
 PROPS["C10"] = dict(
     bin="storage_sim", packages=["storage_sim"], args=["--prop", "C10"],
-    quick_s=45, thorough_s=600, level="exploration", also=[],
+    quick_s=90, thorough_s=600, level="exploration", also=[],
     rule=("WriteBehind<SimKv> with 1-4 serializer threads; 1-4 token-scheduled threads create, fill (overlapping keys "
           "in single, dynamic and set columns) and submit batches in any order; the scheduler picks which parked "
           "serializer proceeds, so any arrival order at the commit stage is reachable; 1-5 logical batches per physical "
@@ -220,7 +220,7 @@ PROPS["C10"] = dict(
 )
 PROPS["C15"] = dict(
     bin="storage_sim", packages=["storage_sim"], args=["--prop", "C15"],
-    quick_s=45, thorough_s=600, level="exploration", also=[],
+    quick_s=90, thorough_s=600, level="exploration", also=[],
     rule=("Interner::new (no timer thread; vacuum is an operation); 2-4 (thorough 8) token-scheduled threads over 1-4 "
           "values x 3 types (two sized structs with equal content, str): intern, intern_unsized, clone, drop (incl. "
           "the last handle), get_from_hash, vacuum, and encode/decode of a structure with repeated and nested handles "
@@ -233,7 +233,7 @@ PROPS["C15"] = dict(
 )
 PROPS["C16"] = dict(
     bin="storage_sim", packages=["storage_sim"], args=["--prop", "C16"],
-    quick_s=45, thorough_s=600, level="exploration", also=[],
+    quick_s=90, thorough_s=600, level="exploration", also=[],
     rule=("TinyLFU<u32, Arc<Cell>> through its public API, capacity 1-40 (thorough 300), key universe 2-12x capacity, "
           "both unpin strategies, Piggyback maintenance; histories of 40-600 (thorough 5000) get / insert-or-update / "
           "remove / pin / unpin / probe operations, single-threaded (3/4) or 2-4 token-scheduled threads with a single "
@@ -256,7 +256,7 @@ PROPS["C16"]["rule"] += (" | lock table (4 of 16 workers): QueryLockManager::new
 
 PROPS["C11"] = dict(
     bin="kv_sim", packages=["kv_sim"], args=[], selfcheck=False,
-    quick_s=60, thorough_s=600, level="exploration", also=[],
+    quick_s=90, thorough_s=600, level="exploration", also=[],
     rule=("the real RocksDB and Fjall backends on a scratch directory (removed after each run); 7 wide-column slots "
           "over 4 columns (byte-string keys with prefixed u8 discriminant and two value types under one key; String "
           "keys with suffixed String discriminants 'a' / 'ab'; unit key and unit discriminant; nested tuple key with "
@@ -279,7 +279,7 @@ PROPS["C11"] = dict(
 
 PROPS["C12"] = dict(
     bin="codec_sim", packages=["codec_sim"], args=["--prop", "C12"], selfcheck=False,
-    quick_s=30, thorough_s=300, level="exploration", also=[],
+    quick_s=60, thorough_s=300, level="exploration", also=[],
     rule=("stream simulation driven by a value generator: 1-8 heterogeneous values of a universe of 80 concrete types "
           "closed under the provided constructors to depth 3 (ints of every width at every 7-bit varint boundary +-1 "
           "and extremes, floats incl. NaN / -0.0 bit-exact, char, String, tuples, arrays, Vec / VecDeque / LinkedList "
@@ -297,7 +297,7 @@ PROPS["C12"] = dict(
 )
 PROPS["C13"] = dict(
     bin="codec_sim", packages=["codec_sim"], args=["--prop", "C13"], selfcheck=False,
-    quick_s=30, thorough_s=300, level="exploration", also=[],
+    quick_s=60, thorough_s=300, level="exploration", also=[],
     rule=("43 concrete types (scalars, strings, sequences, options / results, tuples, boxes, ordered and unordered "
           "collections incl. nested ones, derived structs / enums); per case a value is generated, then (a) rebuilt "
           "three times through different construction histories (another seeded BuildHasher state, shuffled insertion "
@@ -312,6 +312,18 @@ PROPS["C13"] = dict(
     assumptions=["128-bit collisions of SipHash are not searched for; -0.0 vs 0.0 is not asserted either way",
                  "DashMap / DashSet filled by scheduled threads are not covered (sequential construction histories only)"],
 )
+
+# runs per worker process in the quick tier (16 workers, multi-part checks split
+# them); sized so that a loaded machine still reaches the count well inside
+# the wall budget
+QUICK_RUNS = {
+    ("engine_sim", "C01"): 2000, ("engine_sim", "C02"): 1200, ("engine_sim", "C03"): 2000,
+    ("engine_sim", "C04"): 2000, ("engine_sim", "C05"): 2000, ("engine_sim", "C06"): 1700,
+    ("engine_sim", "C07"): 1000, ("engine_sim", "C08"): 280, ("engine_sim", "C08r"): 32,
+    ("storage_sim", "C02"): 3000, ("storage_sim", "C09"): 1100, ("storage_sim", "C10"): 1700,
+    ("storage_sim", "C15"): 2900, ("storage_sim", "C16"): 1300, ("storage_sim", "C16b"): 950,
+    ("kv_sim", ""): 40, ("codec_sim", "C12"): 130000, ("codec_sim", "C13"): 200000,
+}
 
 HOOK_COMMITS = ["06b6edb", "0ffc033", "d5f7b95", "752f4f3", "281bdb8"]
 
